@@ -18,6 +18,7 @@ EXPLANATION = (
     "selects the compressed payload; in read_impl the token is split off the decompressor's output.  Not decided: "
     "whole-packet round trips through the Huffman bit stream (value level)."
 )
+EXPLANATION += ('  Round 4: warning-tested bits are taken from the outermost bit expression of each condition; the resend-flag pair is recognised in closure and in match form.')
 ASSUMPTIONS = ["the functions analysed are straight-line apart from assert!/warn diamonds (checked: otherwise the rule fails closed)"]
 
 # (module, unpacked type, packed type)
